@@ -591,6 +591,7 @@ func runCase(c Case) vh.Record {
 		}
 		if o.O == "settyped" && o.V < len(e.views) && o.S < len(e.views) {
 			d, sv := e.views[o.V], e.views[o.S]
+			tags["pair:"+kindNames[sv.kind]+"_to_"+kindNames[d.kind]] = true
 			if d.buf == sv.buf && d.kind != sv.kind {
 				tags["settyped:same-buffer-different-kind"] = true
 			}
@@ -640,9 +641,17 @@ func main() {
 	switch m.Cmd {
 	case "gen":
 		r := vh.NewRng(m.Seed)
+		scen := 0
 		for i := 0; i < m.N; i++ {
 			wild := i == 3 && m.Seed%1000 < 4
-			c := genCase(r.Fork(), wild)
+			// 2 of 5 cases start with a set(typedArray) scenario for one ordered (source kind, target kind) pair;
+			// the pairs are walked systematically so that all 121 occur in every run
+			pair := -1
+			if !wild && i%5 < 2 {
+				pair = (int(m.Seed%1000)*31 + scen) % 121
+				scen++
+			}
+			c := genCase(r.Fork(), wild, pair)
 			vh.Guard(w, vh.MustJSON(c), failTerm, 20, func() vh.Record { return runCase(c) })
 		}
 	case "replay":
